@@ -18,7 +18,7 @@ def correspondence(res, tier, seed):
                 "method switches; search: real debiasers on 400-800 day series with obs = cm_hist, window modes off/on/year windows; "
                 "distinct/non-trivial = distinct (method, option) classes")
 
-def build(name, var, mode, r):
+def build(name, var, mode, r, custom_threshold=None):
     import ibicus.debias as D, scipy.stats
     kw = {}
     if mode != "none":
@@ -33,6 +33,10 @@ def build(name, var, mode, r):
     if name == "QuantileDeltaMapping": kw["cdf_threshold"] = 1e-3
     with warnings.catch_warnings():
         warnings.simplefilter("ignore")
+        if custom_threshold is not None:      # QDM for precipitation in other units: both documented routes
+            if custom_threshold[0] == "for_precipitation":
+                return D.QuantileDeltaMapping.for_precipitation(censoring_threshold=custom_threshold[1], **kw)
+            return D.QuantileDeltaMapping.from_variable("pr", censoring_threshold=custom_threshold[1], **kw)
         return getattr(D, name).from_variable(var, **kw)
 
 def search(res, tier, seed, deep=False):
@@ -50,9 +54,11 @@ def search(res, tier, seed, deep=False):
         for name in names:
             for mode in (["none", "days"] + (["years"] if name in ("CDFt", "QuantileDeltaMapping") else [])):
                 for var in (["tas"] if (tier == "quick" and mode != "none") else ["tas", "pr"]):
-                    if var == "pr" and name in ("CDFt",):       # SSR randomises: not a fixed point by design
-                        continue
-                    d = build(name, var, mode, r)
+                    # (CDFt pr: SSR randomises only exact zeros; the data below are strictly positive, so it is deterministic)
+                    custom = None
+                    if var == "pr" and name == "QuantileDeltaMapping" and (tier != "quick" or mode == "none") and r.random() < 0.6:
+                        custom = (r.choice(["for_precipitation", "from_variable"]), 0.1)      # mm/day data, threshold 0.1 mm/day
+                    d = build(name, var, mode, r, custom)
                     n, nF = r.randint(730, 800), r.randint(730, 1100)
                     if mode == "none" and var == "tas" and (tier != "quick" or name in ("CDFt", "QuantileDeltaMapping", "QuantileMapping")):
                         n, nF = r.randint(2100, 2600), r.randint(2100, 3000)      # calibration samples of several thousand values
@@ -62,9 +68,13 @@ def search(res, tier, seed, deep=False):
                     else:
                         tiny = 1e-3 if (name in ("LinearScaling", "DeltaChange") and (rnd + seed) % 2 == 0) else 1.0    # very small fluxes now and then
                         mk = lambda m, s: (rs.gamma(0.9, 6e-5 * (1 + s), m) + 2e-6) * tiny     # strictly positive, above the censoring threshold
+                        if custom: mk = lambda m, s: rs.gamma(0.9, 5.0 * (1 + s), m) + 0.1
                     obs, fut = mk(n, 0), mk(nF, 0.5)
+                    if var == "pr" and name == "CDFt" and custom is None:
+                        # the smallest positive value of all three series lies in cm_future (it is the SSR threshold itself)
+                        fut[r.randrange(nF)] = 0.9 * min(obs.min(), fut.min())
                     tO = create_array_of_consecutive_dates(n, np.datetime64("1980-01-01")); tF = create_array_of_consecutive_dates(nF, np.datetime64("2040-01-01"))
-                    inp = dict(debiaser=name, variable=var, window_mode=mode, n=[n, nF], seed=seed)
+                    inp = dict(debiaser=name, variable=var, window_mode=mode, n=[n, nF], seed=seed, custom_censoring=custom)
                     with warnings.catch_warnings():
                         warnings.simplefilter("ignore")
                         np.random.seed(2)
@@ -75,7 +85,7 @@ def search(res, tier, seed, deep=False):
                                 out = d.apply_location(obs, obs.copy(), fut, time_obs=tO, time_cm_hist=tO, time_cm_future=tF); want = fut
                         except Exception as e:
                             report("exception:" + name, inp, repr(e)[:300], "apply_location raised"); continue
-                    res.case(("fix", name, var, mode))
+                    res.case(("fix", name, var, mode, custom and custom[0]))
                     scale = float(np.max(np.abs(want)))
                     err = float(np.max(np.abs(out - want))) / scale
                     if not (err <= 1e-6):
